@@ -15,6 +15,16 @@ CHECKS = {
         "ref": "DESIGN.md 5/C02", "technique": _N + "; run-length certificate for the exhaustive float32 sweep",
         "note": "Declared float32 slack (decided in DESIGN 3.2 before any code existed): half code read as 1/2 + n*2^-22, window as (x+h)(1+2^-22). The run-length encoding in the driver is trusted (cross-checked by totals).",
     },
+    "C03": {
+        "text": "Matrix.tla derives, in exact integer arithmetic, the RGB->XYZ matrix fixed by three primary chromaticities and a white point (M = C diag(adj(C) w) / (det(C) Yw)) and TLC self-tests it (adjugate identities, (1,1,1) maps to the white exactly). Spaces.tla holds the published chromaticities of the four spaces. Recorded from the real code and judged by TLC: the 8 declared chromaticities per space against the published values at their published digits; the 9 forward coefficients (unit-vector probes) within 1e-6 of the exact matrix of the DECLARED float32 chromaticities; (1,1,1) -> white with Y = 1; each unit primary keeps its chromaticity; on a lattice over [-1,2]^3 plus seeded triples, linearity within (1e-6 + 4*2^-24) max(1, sum|v|) against the exact matrix and both round trips within 2e-6 max(1, max|v|) (no clamping of out-of-range colours).",
+        "ref": "DESIGN.md 5/C03", "technique": _N + "; exact rational matrix derivation in TLA+",
+        "note": "The 2^24 lattice is not enumerated by TLC; linearity against the exact matrix on the lattice plus the per-coefficient bound is the certificate (DESIGN 5/C03).",
+    },
+    "C20": {
+        "text": "For 20 published RGB spaces and seeded triangles (area >= 0.01, white strictly inside) the generated matrices are recorded and TLC checks, against the exact derivation from the same float32 chromaticities: (1,1,1) -> white, unit primaries keep their chromaticity (1e-6 kappa), from*to = I within 1e-9 kappa with kappa computed exactly. Matrix inverse, product, matrix-vector product and transpose on seeded dyadic matrices (entries k/2^20 in [-4,4], |det| >= 1e-3) are compared with the exact rational results; matrices made singular by repeated or zero columns must panic.",
+        "ref": "DESIGN.md 5/C20", "technique": _N + "; exact rational 3x3 algebra in TLA+",
+        "note": "Matrices with equal rows and non-dyadic entries (rounding-noise determinant) are outside the property's stated domain and not judged.",
+    },
     "C14": {
         "text": "AlphaIdentity (alpha out = alpha in, integer equality) and TransparentIsZero for linearise and encode in all 4 spaces over all 65,536 alphas (thorough) or a boundary+seeded subset (quick); PremultValid (channel <= alpha stays so after linearising) on the column c = a, boundaries and seeded interior, backed by the lemma EOTF(x) <= x that TLC checks on the 16-bit grid; constructor alpha = A/max decided as correct rounding of the 24-bit mantissa in integer arithmetic; encode-side alpha through the quantiser law for float alphas incl. out of range, infinities, NaN; opaque constructors agree bit-for-bit.",
         "ref": "DESIGN.md 5/C14", "technique": _N,
